@@ -568,6 +568,42 @@ def _try_inline(st: ast.stmt, cands, caller, ccls, caller_locals) -> tuple[str, 
     return name, out
 
 
+# ------------------------------------------------------------------------------------------------ N16
+def _struct_objects(tree: ast.Module, known: set[str]) -> None:
+    """A module-level `_S = struct.Struct(<literal format>)` the rules do not know by name: `_S.pack(a, b)` is `struct.pack(fmt, a, b)`, `_S.unpack(x)` is
+    `struct.unpack(fmt, x)`, `_S.size` is `struct.calcsize(fmt)` (compiled formats are a spelling of the same codec)."""
+    fmts: dict[str, ast.expr] = {}
+    for st in tree.body:
+        if isinstance(st, ast.Assign) and len(st.targets) == 1 and isinstance(st.targets[0], ast.Name) and isinstance(st.value, ast.Call) \
+                and ast.unparse(st.value.func) in ("struct.Struct", "Struct") and len(st.value.args) == 1 and isinstance(st.value.args[0], ast.Constant) \
+                and isinstance(st.value.args[0].value, (str, bytes)) and st.targets[0].id not in known:
+            fmts[st.targets[0].id] = st.value.args[0]
+    if not fmts:
+        return
+    stores: dict[str, int] = {}
+    for n in ast.walk(tree):
+        if isinstance(n, ast.Name) and isinstance(n.ctx, (ast.Store, ast.Del)):
+            stores[n.id] = stores.get(n.id, 0) + 1
+    fmts = {k: v for k, v in fmts.items() if stores.get(k) == 1}
+
+    class T(ast.NodeTransformer):
+        def visit_Call(self, node: ast.Call) -> ast.AST:
+            self.generic_visit(node)
+            f = node.func
+            if isinstance(f, ast.Attribute) and isinstance(f.value, ast.Name) and f.value.id in fmts and f.attr in ("pack", "unpack", "unpack_from", "pack_into", "iter_unpack"):
+                node.func = ast.copy_location(ast.Attribute(value=ast.copy_location(ast.Name(id="struct", ctx=ast.Load()), f), attr=f.attr, ctx=ast.Load()), f)
+                node.args = [copy.deepcopy(fmts[f.value.id])] + node.args
+            return node
+
+        def visit_Attribute(self, node: ast.Attribute) -> ast.AST:
+            self.generic_visit(node)
+            if isinstance(node.value, ast.Name) and node.value.id in fmts and node.attr == "size" and isinstance(node.ctx, ast.Load):
+                return ast.copy_location(ast.Call(func=ast.Attribute(value=ast.Name(id="struct", ctx=ast.Load()), attr="calcsize", ctx=ast.Load()),
+                                                  args=[copy.deepcopy(fmts[node.value.id])], keywords=[]), node)
+            return node
+    T().visit(tree)
+
+
 # ------------------------------------------------------------------------------------------------ N15
 class _Suppress(ast.NodeTransformer):
     """`with suppress(E1, E2): body`  ->  `try: body  except (E1, E2): pass`  (contextlib.suppress)."""
@@ -740,6 +776,7 @@ def normalise(trees: dict[str, ast.Module]) -> None:
     _inline_helpers(trees, known)
     _split_handlers(trees)
     for t in trees.values():
+        _struct_objects(t, known)
         _inline_constants(t, known)
         _Suppress().visit(t)
         _LenTests().visit(t)
